@@ -226,12 +226,20 @@ def gen_tristate(rng):
     jnames, jkind, body_xml = [], {}, []
     open_bodies = 0
     sites = []
+    cur_cc = None          # childclass in force inside the current chain (set by an ancestor body)
     for i in range(njoint):
         kind = kinds[i % 3] if i < 6 else R.pick(kinds)
         cname = R.pick([None, "t0", "t1", "t2"])
+        new_chain = open_bodies == 0 or R.P(0.35)
+        if new_chain:
+            cur_cc = None
         childclass = None
         if cname is not None and R.P(0.4):
             childclass, use_class = cname, None      # the class arrives through the body's childclass
+            cur_cc = cname
+        elif cname is None and cur_cc is not None:
+            cname, use_class = cur_cc, None          # ... or through the childclass of an ancestor body
+            R.count("tristate_via:childclass_of_ancestor")
         else:
             use_class = cname
         a = {"name": "j%d" % i, "type": kind}
@@ -247,7 +255,6 @@ def gen_tristate(rng):
             a["actuatorfrclimited"] = "false"
             R.count("tristate:joint_ball.actuatorfrclimited:explicit_false_forced_by_type")
         R.count("tristate_via:%s" % ("childclass" if childclass else ("class" if use_class else "no_class")))
-        new_chain = open_bodies == 0 or R.P(0.35)
         if new_chain and open_bodies:
             body_xml.append("</body>" * open_bodies)
             open_bodies = 0
